@@ -10,10 +10,16 @@
    interval queue is non-empty whenever a loss increase can be reported (HcStepTotal.v); flush() terminates by a
    potential argument over (resend entries, free window slots, datagrams left in the frame being built)
    (HcFlushTotal.v — the repaired livelock D2 lived in exactly these loops).
-   NOT proved: the Client / Server composition around the half-connection (event heap, address table). That is
-   decided on the implementation (debug AND release builds, with a hang watchdog) by the hostile / pair /
-   lifecycle streams and through the model correspondence, in which every modelled panic site and loop bound is
-   explicit (partial, see DESIGN.md). *)
+   The same for the endpoints around it: for every history of a Client (C03_client_total) and of a Server
+   (C03_server_total) — steps with any datagrams made of bytes from any addresses, any clock values, any
+   nonces, flushes, sends, disconnects, drops — every further step or call returns normally (EndpointTotal.v;
+   the server's timer loop terminates because every pop removes a due entry and every push adds one that is
+   not due, counted through the binary heap's sift operations in HeapCount.v).
+   So every panic site and every loop that the model contains is unreachable / bounded, for all inputs. What
+   this does not cover is what the model does not contain: arithmetic overflow checks of debug builds where
+   the model computes in unbounded N/Z (the code's wrapping and saturating operations are explicit in the model),
+   allocation failure, the socket calls, and the agreement between model and code itself — those are what the
+   correspondence streams (debug AND release builds, hang watchdog) decide (see DESIGN.md). *)
 From UF Require Import Consts Base Frame Codec Sender Receiver SendRate FrameQueue HalfConn Endpoint
                        CodecTotal SenderProofs ReceiverProofs SendRateProofs FrameQueueProofs HcTotal HcFlushTotal HcStepTotal EndpointTotal.
 
@@ -69,6 +75,13 @@ Theorem C03_client_total :
 Proof. exact client_never_panics_or_hangs. Qed.
 Print Assumptions C03_client_total.
 
+Theorem C03_server_total :
+  forall cfg t0 seed ops o,
+    Forall sv_op_ok ops -> sv_op_ok o ->
+    sv_op_result (fold_left sv_apply ops (server_new cfg t0 seed)) o = Ok tt.
+Proof. exact server_never_panics_or_hangs. Qed.
+Print Assumptions C03_server_total.
+
 (* the configurations Client and Server actually construct (Endpoint.v, hc_config_of) satisfy cfg_ok *)
 Theorem C03_endpoint_configs_ok :
   forall ec ln rn rmrr rmra, ln < pow32 -> cfg_ok (hc_config_of ec ln rn rmrr rmra).
@@ -111,6 +124,12 @@ Proof.
   split; vm_compute; reflexivity.
 Qed.
 
+Check C03_server_total :
+  forall cfg t0 seed ops o, Forall sv_op_ok ops -> sv_op_ok o ->
+    sv_op_result (fold_left sv_apply ops (server_new cfg t0 seed)) o = Ok tt.
+Check C03_client_total :
+  forall ec nonce t0 seed ops o, nonce < pow32 -> Forall cl_op_ok ops -> cl_op_ok o ->
+    cl_op_result (fold_left cl_apply ops (fst (client_connect ec nonce t0 seed))) o = Ok tt.
 Check C03_half_connection_total :
   forall c seed ops o, cfg_ok c -> Forall op_ok ops -> op_ok o ->
     hc_op_result (fold_left hc_apply ops (hc_new c seed)) o = Ok tt.
